@@ -195,12 +195,46 @@ Lemma chunk_size_accepted p c p' evs :
   signed_digits is_hex (tok p) /\ (0 <= csize p' < 4611686018427387904)%Z.
 Proof.
   intros Hs Hneg H Hc. unfold stepb in H. rewrite Hs in H.
-  assert (En : (csize p <? 0)%Z = true) by (apply Z.ltb_lt; exact Hneg). rewrite En, Hc in H.
+  assert (En : (csize p <? 0)%Z = true) by (apply Z.ltb_lt; exact Hneg). rewrite En, Hc in H. cbn [andb] in H.
   destruct (parse_int 16 (tok p)) as [z|] eqn:E.
-  2:{ destruct (N.eqb c SP); [discriminate|]. destruct (N.eqb c CR); discriminate. }
+  2:{ destruct (N.eqb c SP || N.eqb c HT); [discriminate|]. destruct (N.eqb c SEMI); [discriminate|].
+      destruct (N.eqb c CR); discriminate. }
   apply (parse_int_shape 16 is_hex) in E as [S R]; [|exact parse_digits_16_hex]. split; [exact S|].
   destruct (Z.ltb_spec z 0).
-  { destruct (N.eqb c SP); [discriminate|]. destruct (N.eqb c CR); discriminate. }
-  destruct (N.eqb c SP); [inversion H; subst; cbn; lia|].
-  destruct (N.eqb c CR); inversion H; subst; cbn; lia.
+  { destruct (N.eqb c SP || N.eqb c HT); [discriminate|]. destruct (N.eqb c SEMI); [discriminate|].
+    destruct (N.eqb c CR); discriminate. }
+  destruct (N.eqb c SP || N.eqb c HT); [inversion H; subst; cbn; lia|].
+  destruct (N.eqb c SEMI); [inversion H; subst; cbn; lia|].
+  destruct (N.eqb c CR); [inversion H; subst; cbn; lia|discriminate].
+Qed.
+
+(* behind the hex digits only SP, HT, ';' (start of a chunk extension) or CR may follow: "2g", "0X" are rejected *)
+Lemma chunk_size_delimiter p c :
+  st p = SChunkSize -> is_hex c = false -> c <> SP -> c <> HT -> c <> SEMI -> c <> CR ->
+  stepb p c = Fail ErrInvalidChunkSize [].
+Proof.
+  intros Hs Hc H1 H2 H3 H4. unfold stepb. rewrite Hs, Hc.
+  destruct (N.eqb_spec c SP); [contradiction|]. destruct (N.eqb_spec c HT); [contradiction|].
+  destruct (N.eqb_spec c SEMI); [contradiction|]. destruct (N.eqb_spec c CR); [contradiction|]. reflexivity.
+Qed.
+
+(* and once the size has been read (whitespace seen) no further digit is taken: "2 3" is rejected *)
+Lemma chunk_size_no_second_number p c :
+  st p = SChunkSize -> (0 <= csize p)%Z -> is_hex c = true -> stepb p c = Fail ErrInvalidChunkSize [].
+Proof.
+  intros Hs Hn Hc. unfold stepb. rewrite Hs, Hc.
+  assert (E : (csize p <? 0)%Z = false) by (apply Z.ltb_ge; exact Hn). rewrite E.
+  destruct (N.eqb_spec c SP) as [->|_]; [discriminate Hc|]. destruct (N.eqb_spec c HT) as [->|_]; [discriminate Hc|].
+  destruct (N.eqb_spec c SEMI) as [->|_]; [discriminate Hc|]. destruct (N.eqb_spec c CR) as [->|_]; [discriminate Hc|].
+  reflexivity.
+Qed.
+
+(* between the last chunk and the final CRLF only leading whitespace of a trailer line is skipped *)
+Lemma trailer_section_stray p c :
+  st p = STrailerKeyBefore -> is_token c = false -> c <> CR -> c <> SP -> c <> HT ->
+  stepb p c = Fail ErrInvalidCharInHeader [].
+Proof.
+  intros Hs Hc H1 H2 H3. unfold stepb. rewrite Hs, Hc.
+  destruct (N.eqb_spec c CR); [contradiction|]. destruct (N.eqb_spec c SP); [contradiction|].
+  destruct (N.eqb_spec c HT); [contradiction|]. reflexivity.
 Qed.
